@@ -33,6 +33,10 @@ def run(ctx, standalone=True):
     ctx.rule('C15.STORED', lambda: rule_stored(ctx), 2)
     ctx.rule('C15.PENDING', lambda: rule_pending_owned(ctx), 3)
     ctx.rule('C15.NOREFUSAL', lambda: rule_reorg_unrefused(ctx), 1)
+    ctx.rule('C15.KEYUSERS', lambda: rule_undo_key_users(ctx), 2)
+    if standalone:
+        from . import c03 as _c03h
+        ctx.rule('C15.HEIGHTS', lambda: _c03h.rule_heights(ctx), 2)
     if standalone:
         # 'replacing up to the reorg limit of most recent blocks': the range backed out must be exactly the fork depth
         from . import c03
@@ -287,3 +291,24 @@ def rule_reorg_unrefused(ctx, rule='C15.NOREFUSAL'):
               'reorg_chain leaves early only when the block to undo is not the tip; missing undo information is detected per block',
               'reorg_chain can refuse or abandon the reorganisation itself: ' + '; '.join(bad[:2]), loc=ctx.loc(f, f.node))
     return 1
+
+
+def rule_undo_key_users(ctx, rule='C15.KEYUSERS'):
+    '''Undo rows are addressed only to be written by a flush (flush_undo_infos) and read by a backup (read_undo_info); the
+    start-up pruning works on the raw key range.  Any other use of undo_key() - in particular feeding it to a delete list -
+    removes undo information of a block that is still inside the window (the height at hand during a backup is already
+    the lowered one).'''
+    uk = ctx.func('db', 'DB.undo_key')
+    allowed = {'DB.flush_undo_infos', 'DB.read_undo_info'}
+    n = 0
+    bad = []
+    for (caller, _callee, kind, node) in ctx.cg.callers(uk):
+        n += 1
+        if caller.qual not in allowed:
+            bad.append(f'{ctx.loc(caller, node)} {caller.qual}: `{norm(q.stmt(node))[:70]}`')
+    ctx.check(not bad and n >= 2, rule, ctx.key(uk, None, 'used by the writer and the reader only'),
+              'undo_key() is used only to write undo rows in a flush and to read them in a backup',
+              'undo_key() is also used by ' + '; '.join(bad[:2]) + ': an undo row can be removed (or written) outside the flush / '
+              'start-up-prune discipline, so undo information of a block inside the window goes missing',
+              loc=ctx.loc(uk, uk.node))
+    return max(n, 1)
